@@ -59,7 +59,17 @@ def make_tracker(grid, forcing, dt, advection="EF", diffusion=0.0, vertdiff=0.0,
     from ladim.timekeeper import TimeKeeper
     from ladim.tracker import Tracker
 
-    tk = TimeKeeper(start=rf.iso(0), stop=rf.iso(100 * int(dt)), dt=int(dt))
+    if float(dt) == int(dt):
+        tk = TimeKeeper(start=rf.iso(0), stop=rf.iso(100 * int(dt)), dt=int(dt))
+    else:
+        # a time module made by hand (the tracker reads only its dt): time step with a fraction of a second
+        class _Time:
+            pass
+        tk = _Time()
+        tk.dt = np.timedelta64(int(round(float(dt) * 1000)), "ms")
+        tk.dtsec = float(dt)
+        tk.step = 0
+        tk.time_reversal = False
     st = State() if nstate is None else nstate
     mods = {"time": tk, "state": st, "grid": grid, "forcing": forcing}
     tr = Tracker(advection=advection, diffusion=diffusion, vertdiff=vertdiff, vertical_advection=vertical_advection, modules=mods)
